@@ -10,6 +10,7 @@ use serde_json::{json, Value};
 use std::sync::atomic::{AtomicU64, AtomicU8, Ordering};
 
 mod cards;
+mod history;
 mod misc;
 mod ranking;
 mod sets;
@@ -17,6 +18,25 @@ mod text;
 
 pub fn run(id: &str, o: &Oracle, tier: &str, seed: u64, rep: &Report) -> bool {
     let thorough = tier == "thorough";
+    // history independence (single-threaded interleaving on a recurring pool), before the sweeps
+    let rounds = if thorough { 4_000_000 } else { 400_000 };
+    match id {
+        "C01" | "C02" | "C03" | "C04" | "C05" | "C06" | "C08" | "C09" | "C13" => {
+            history::ranking_history(o, seed, rep, rounds);
+            if matches!(id, "C01" | "C06") {
+                history::five_pairs_history(o, seed, rep, thorough);
+            }
+            if matches!(id, "C02" | "C03" | "C09" | "C06" | "C08") {
+                history::big_families_history(o, seed, rep, rounds / 8);
+            }
+        }
+        "C15" | "C16" => {
+            history::words_history(o, seed, rep, rounds);
+            history::peel_interleaving(o, seed, rep, rounds);
+        }
+        "C10" | "C14" | "C17" | "C20" => history::words_history(o, seed, rep, rounds),
+        _ => {}
+    }
     match id {
         "C01" => ranking::c01(o, thorough, seed, rep),
         "C02" => ranking::c02_c03(o, thorough, seed, rep, false),
